@@ -77,6 +77,14 @@ Definition check_interop (inp obs : V) : verdict :=
              (* property oracle: never a hang (4), a panic (5), a silent downgrade (6) or a working unknown-name dispense (7);
                 works exactly when compatible; refused start configurations leave no process *)
              v_oracle_impl := Z.leb cls 3 && Bool.eqb (Z.eqb cls 0) (compatible h p) &&
+                              (* where the mismatch surfaces: a protocol outside the allowed list and an option conflict at
+                                 start; an unanswered multiplexing request at start, with the dedicated error *)
+                              (let launches := negb (match h_launch h with LReattach => true | _ => false end) in
+                               let grpc := match p_wire p with WGrpc => true | WNet => false end in
+                               let advertises := match p_mux p with MuxNew => true | _ => false end in
+                               (if launches && negb (allowed h (p_wire p)) then Z.eqb cls 1 else true) &&
+                               (if launches && allowed h (p_wire p) && h_mux h && grpc && negb advertises then Z.eqb cls 2 else true) &&
+                               (if negb launches && h_mux h then Z.eqb cls 1 else true)) &&
                               (if (Z.eqb cls 1 || Z.eqb cls 2) && negb (match h_launch h with LReattach => true | _ => false end) then killed else true);
              v_oracle_model := Bool.eqb (Z.eqb code 0) (compatible h p);
              v_model_obs := m; v_branch := VI code |}
